@@ -160,6 +160,8 @@ class CopyRebuild(Contract):
         else:
             for j in range(len(kids)):
                 self.one(h, Mn, Kn, j, f"only#{j}")
+            if not kids:
+                h.oblige(f"no-children[{Mn},{Kn}]", z3.BoolVal(True))
 
     def one(self, h, Mn, Kn, only, lab):
         M, K, b, mapper, rec, fam = setup(h, Mn, Kn, mode="image")
